@@ -9,7 +9,7 @@ import (
 )
 
 var windows = []string{"cur", "cur", "cur", "past", "future", "forever", "zero", "vamax", "vbmax", "edge", "lapse", "vb31", "vb32", "va32", "vb63", "vb63p", "va63", "cur", "past"}
-var kidKinds = []string{"ys", "ys", "ystouch", "ysff", "ysnonce", "nover", "incons", "deftouch", "missing", "free", "empty", "headless", "headless0", "headlessneg", "nonce0", "headless17", "touch4", "touch258", "ys"}
+var kidKinds = []string{"ys", "ys", "ystouch", "ysff", "ysnonce", "nover", "incons", "deftouch", "missing", "free", "empty", "headless", "headless0", "headlessneg", "nonce0", "headless17", "touch4", "touch258", "ys", "ysws", "ysorder", "ysesc"}
 var comments = []string{"", "c", "my key", "paranoids.regular-cert"}
 
 // exhaustiveSets: every sequence of `depth` operations from a curated alphabet, from a handful of
@@ -18,8 +18,9 @@ func exhaustiveSets(depth int) [][]string {
 	// a small universe: key k1 with a valid YSSHCA certificate c1, an expired one c2, a certificate
 	// with a free-text KeyID c3; key k2 with a valid YSSHCA certificate c4
 	c1, c2, c3, c4 := "c1.k1.cur.ys.0", "c2.k1.past.ys.0", "c3.k1.cur.free.0", "c4.k2.cur.ystouch.0"
+	c5 := "c5.k1.cur.ysws.0" // a YSSHCA KeyID with white space around it
 	alphabet := []string{"list", "signers", "sign=" + c1, "sign=k1", "sign=" + c2, "sign256=" + c1, "sign512=k1", "add=" + c4 + ":63", "addhard=" + c1 + "=-", "addhard=" + c2 + "=-",
-		"addhard=" + c3 + "=796b", "remove=" + c1, "remove=k1", "removeall", "lock=7077", "unlock=7077", "unlock=6e6f", "uadd=k1:-", "uadd=" + c1 + ":63",
+		"addhard=" + c3 + "=796b", "remove=" + c1, "remove=k1", "removeall", "lock=7077", "unlock=7077", "unlock=6e6f", "uadd=k1:-", "uadd=" + c1 + ":63", "uadd=" + c5 + ":63", "sign=" + c5,
 		"uremove=k1", "uremoveall", "forward=c80102", "list!fail:list", "list!fail:remove", "sign=" + c1 + "!fail:sign", "addhard=" + c1 + "=-!fail:list"}
 	starts := []string{"-", "k1:-", "k1:-," + c1 + ":63", "k1:-," + c2 + ":-,k2:6b"}
 	var seqs [][]string
